@@ -8,29 +8,30 @@ import (
 
 // Profile selects what a campaign generates (one per property family).
 type Profile struct {
-	Name       string
-	Voters     [2]int
-	NonVoters  [2]int // added through AddServer(…, false) in a fault-free prologue
-	Phases     [2]int
-	Patterns   []string // enabled patterns; repetition = weight
-	Writes     bool
-	LinReads   bool
-	LeaseReads bool
-	Crashes    bool // kill at an arbitrary instant / at storage boundaries, restart
-	Stops      bool // graceful stop + restart
-	Membership bool
-	Snapshots  string // "" | "armed" | "threshold"
-	FSMDelays  bool
-	DiskCheck  bool
-	BigPayload bool
-	MaxDelayUs []int
-	ETs        []int
-	LDs        []int
-	Timeouts   []int
-	EpilogueET int      // fault-free suffix length in election timeouts
-	Prologue   bool     // wait for a first leader before the schedule starts
-	BoundedNet bool     // never hold messages (C17: delay bound is part of the property)
-	Combos     [][3]int // if set: (ET ms, LD ms, max delay us) drawn together
+	Name         string
+	Voters       [2]int
+	NonVoters    [2]int // added through AddServer(…, false) in a fault-free prologue
+	Phases       [2]int
+	Patterns     []string // enabled patterns; repetition = weight
+	Writes       bool
+	LinReads     bool
+	LeaseReads   bool
+	Crashes      bool // kill at an arbitrary instant / at storage boundaries, restart
+	Stops        bool // graceful stop + restart
+	Membership   bool
+	MinorityDown bool   // some nodes that are down when the faults stop may stay down (a majority of voters runs)
+	Snapshots    string // "" | "armed" | "threshold"
+	FSMDelays    bool
+	DiskCheck    bool
+	BigPayload   bool
+	MaxDelayUs   []int
+	ETs          []int
+	LDs          []int
+	Timeouts     []int
+	EpilogueET   int      // fault-free suffix length in election timeouts
+	Prologue     bool     // wait for a first leader before the schedule starts
+	BoundedNet   bool     // never hold messages (C17: delay bound is part of the property)
+	Combos       [][3]int // if set: (ET ms, LD ms, max delay us) drawn together
 }
 
 // step is a lazily resolved action: it sees the current view when it is its turn.
@@ -103,6 +104,9 @@ func DrawHeader(t *rapid.T, p Profile) Header {
 	}
 	h.DiskCheck = p.DiskCheck
 	h.DynamicMembers = p.Membership
+	if p.MinorityDown {
+		h.KeepDown = rapid.SampledFrom([]int{0, 0, 1, 1, 2}).Draw(t, "keepDown")
+	}
 	if len(p.Combos) > 0 {
 		c := rapid.SampledFrom(p.Combos).Draw(t, "combo")
 		h.ET, h.LD, h.MaxDelayUs = c[0], c[1], c[2]
@@ -1064,6 +1068,94 @@ func (g *Gen) expand(pat string, v View) {
 		st = append(st, advance(g.dur("d2", 3*et, 5*et)), submitAt("anyleader", "write"), advance(g.dur("d3", hb, et)))
 		st = append(st, lit(Action{Op: "heal", Mode: "deliver"}), advance(g.dur("d4", et, 3*et)))
 		g.push("P30", st...)
+	case "P31": // the voters that just renewed the leader's lease restart (new processes) and are cut off from it, while a voter
+		// that has been asking for votes for a while keeps asking: reads at the old leader inside its lease window
+		if leader == "" || len(g.C.others(leader)) < 2 || !g.P.Crashes {
+			g.push("P31", advance(et))
+			return
+		}
+		others := g.C.others(leader)
+		cand := g.pick("asker", others)
+		var st []step
+		st = append(st, lit(Action{Op: "link", Node: leader, Node2: cand, Mode: "drop"}), lit(Action{Op: "link", Node: cand, Node2: leader, Mode: "drop"}))
+		// (no writes at the leader from here on: the asker's log must stay as good as everybody's)
+		st = append(st, advance(g.dur("d0", 2*et, 3*et, 4*et)))
+		rounds := rapid.IntRange(1, 3).Draw(t, "rounds")
+		for r := 0; r < rounds; r++ {
+			st = append(st, advance(g.dur("d1", 1000, hb/2, hb, 2*hb)))
+			for _, o := range others {
+				if o != cand {
+					how := rapid.SampledFrom([]string{"crash", "crash", "stop"}).Draw(t, "how")
+					st = append(st, lit(Action{Op: how, Node: o}), lit(Action{Op: "restart", Node: o}))
+					st = append(st, lit(Action{Op: "link", Node: leader, Node2: o, Mode: "drop"}), lit(Action{Op: "link", Node: o, Node2: leader, Mode: "drop"}))
+				}
+			}
+			slices := rapid.IntRange(4, 10).Draw(t, "slices")
+			for i := 0; i < slices; i++ {
+				st = append(st, advance(g.dur("slice", et/16, et/8, et/4)))
+				st = append(st, func(g *Gen, v View) (Action, bool) {
+					id := newestLeaderExcept(v, leader)
+					if id == "" {
+						return Action{Op: "advance", DurUs: 1000}, true
+					}
+					return Action{Op: "submit", Node: id, Kind: "write", Client: g.nextClient(), Timeout: 1000}, true
+				}, advance(g.dur("ack", 2000, 5000, hb/2)))
+				for _, k := range g.readKinds() {
+					st = append(st, lit(Action{Op: "submit", Node: leader, Kind: k, Client: g.nextClient(), Timeout: 300}))
+				}
+			}
+			// everybody hears the old leader again (if it still leads) before the next round
+			for _, o := range others {
+				if o != cand {
+					st = append(st, lit(Action{Op: "link", Node: leader, Node2: o, Mode: "prompt"}), lit(Action{Op: "link", Node: o, Node2: leader, Mode: "prompt"}))
+				}
+			}
+			st = append(st, advance(g.dur("d2", 2*et, 3*et)))
+		}
+		st = append(st, lit(Action{Op: "heal", Mode: "deliver"}), advance(g.dur("d3", et, 2*et)))
+		g.push("P31", st...)
+	case "P32": // a node wins a prevote, then loses every real vote request and keeps raising its term; later it is stale, restarted
+		// (so it only sends prevotes) and needed: the leader is gone and the only electable node is below its term
+		if leader == "" || len(g.C.others(leader)) != 2 || !g.P.Crashes {
+			g.push("P32", advance(et))
+			return
+		}
+		others := g.C.others(leader)
+		c := g.pick("inflated", others)
+		b := others[0]
+		if b == c {
+			b = others[1]
+		}
+		var st []step
+		st = append(st, lit(Action{Op: "isolate", Node: leader, Mode: "drop"}))
+		for _, q := range g.C.Order {
+			if q != b {
+				st = append(st, lit(Action{Op: "link", Node: b, Node2: q, Mode: "noreq"}))
+			}
+		}
+		st = append(st, lit(Action{Op: "link", Node: c, Node2: b, Mode: "held"}))
+		rounds := rapid.IntRange(6, 14).Draw(t, "rounds")
+		for i := 0; i < rounds; i++ {
+			st = append(st, advance(et/2), lit(Action{Op: "releaselink", Node: c, Node2: b, Kind: "RVpre", Mode: "deliver"}))
+		}
+		// it is cut off; the others go on and its log falls behind
+		st = append(st, lit(Action{Op: "heal", Mode: "drop"}), lit(Action{Op: "isolate", Node: c, Mode: "drop"}), advance(g.dur("d0", 2*et, 3*et)))
+		nw := rapid.IntRange(1, 3).Draw(t, "nw")
+		for i := 0; i < nw; i++ {
+			st = append(st, submitAt("leader", "write"))
+		}
+		st = append(st, advance(g.dur("d1", 2*hb, et)))
+		// the leader dies; the inflated node restarts and rejoins; nothing else happens
+		st = append(st, func(g *Gen, v View) (Action, bool) {
+			l := v.Leader()
+			if l == "" || l == c {
+				return Action{Op: "advance", DurUs: 1000}, true
+			}
+			return Action{Op: "crash", Node: l}, true
+		})
+		st = append(st, lit(Action{Op: rapid.SampledFrom([]string{"crash", "stop"}).Draw(t, "how"), Node: c}), lit(Action{Op: "restart", Node: c}))
+		st = append(st, lit(Action{Op: "heal", Mode: "drop"}), advance(g.dur("d2", 4*et, 8*et)))
+		g.push("P32", st...)
 	case "P10": // membership change under fault
 		g.push("P10", g.membershipSteps(v)...)
 	case "P11": // everything down, a strict majority (or everybody) comes back
@@ -1398,6 +1490,21 @@ func (g *Gen) stickySteps(v View) []step {
 				return Action{Op: "remove", Node: l, Node2: victim, Client: 8, Timeout: 200}, true
 			}
 			return g.stickyMark(v), true
+		}
+		// history before T0 (inside the property's precondition as long as everybody ends up in one term
+		// before the mark): the first leader is deposed and rejoins once or twice, so that the steady-state
+		// leader has a predecessor, nodes have voted for different candidates, logs were repaired
+		if len(g.C.Order) >= 3 {
+			for k := rapid.IntRange(0, 2).Draw(t, "preHistory"); k > 0; k-- {
+				st = append(st, func(g *Gen, v View) (Action, bool) {
+					l := v.Leader()
+					if l == "" {
+						return Action{Op: "advance", DurUs: et}, true
+					}
+					return Action{Op: "isolate", Node: l, Mode: "drop"}, true
+				}, submitAt("any", "write"), advance(g.dur("pre1", 2*et, 3*et)), submitAt("leader", "write"),
+					lit(Action{Op: "heal", Mode: "drop"}), advance(g.dur("pre2", 2*et, 4*et)))
+			}
 		}
 		st = append(st, setup)
 	}
